@@ -335,16 +335,16 @@ def _shared(ctx, rep, tier):
     also necessary for C01 at the optimisation levels that enable them."""
     from ..core import Report
     from . import c05
-    rep.rule("C01.i", "optimiser rewrites keep action order / never cross proxies / translate Else by the right states; `delete` and `s = \"\"` agree (shared with C05.a-c)")
+    rep.rule("C01.i", "optimiser rewrites keep action order / never cross proxies / translate Else by the right states; never bypass accepting states or merge early-leaving actions into a consuming transition; set lookups are exact; `delete` and `s = \"\"` agree (shared with C05.a-c, g-i)")
     sub = Report("C05")
     c05.run(ctx, sub, tier)
     n = 0
     for v in sub.violations:
-        if v.rule in ("C05.a", "C05.b", "C05.c"):
+        if v.rule in ("C05.a", "C05.b", "C05.c", "C05.g", "C05.h", "C05.i"):
             rep.bad("C01.i", v.function, v.construct, v.message, v.extra, v.line)
             n += 1
     if not n:
-        rep.ok("C01.i", "DfaCompileCtx._optimize_shortcircuit_fallthroughs", f"{sum(sub.instances.get(r, 0) for r in ('C05.a', 'C05.b', 'C05.c'))} shared instances hold")
+        rep.ok("C01.i", "DfaCompileCtx._optimize_shortcircuit_fallthroughs", f"{sum(sub.instances.get(r, 0) for r in ('C05.a', 'C05.b', 'C05.c', 'C05.g', 'C05.h', 'C05.i'))} shared instances hold")
 
 
 _run0 = run
